@@ -231,9 +231,13 @@ def run(ck, w):
     # 3c: drain before finish_hunk; finished only filled after a successful store
     fg = w.body("backup::BackupWriter::flush_group")
     o = ck.ob("C03.3c", "flush_group: the combiner is drained (blocks stored) before finish_hunk writes the hunk")
-    order_after_success(ck, o, fg, events_of(lib, fg, "backup::FileCombiner::drain"),
-                        events_of(lib, fg, "index::write::IndexWriter::finish_hunk"), "FileCombiner::drain", "finish_hunk")
-    dr = w.body("backup::FileCombiner::drain")
+    # (drain may have been merged into flush_group, its only caller: then the flush itself is the event, and the hand-out
+    # of `finished` is looked for in flush_group)
+    has_drain = lib.main_body("backup::FileCombiner::drain") is not None
+    drain_fn = "backup::FileCombiner::drain" if has_drain else "backup::FileCombiner::flush"
+    order_after_success(ck, o, fg, events_of(lib, fg, drain_fn),
+                        events_of(lib, fg, "index::write::IndexWriter::finish_hunk"), "FileCombiner::" + drain_fn.rsplit("::", 1)[1], "finish_hunk")
+    dr = w.body("backup::FileCombiner::drain") if has_drain else fg
     o = ck.ob("C03.3c.drain", "drain: the finished entries are handed out only after flush succeeded")
     takes = field_events(w, dr, r"^std::mem::take$", "finished")
     order_after_success(ck, o, dr, events_of(lib, dr, "backup::FileCombiner::flush"), takes, "flush", "take(finished)")
@@ -252,6 +256,8 @@ def run(ck, w):
                     if "finished" in path:
                         touch.add(b.root)
     allowed = {"backup::FileCombiner::drain", "backup::FileCombiner::flush", "backup::FileCombiner::push_file"}
+    if not has_drain:
+        allowed.add("backup::BackupWriter::flush_group")
     extra = touch - allowed
     if extra:
         ck.fail(o, ",".join(sorted(extra)), "unexpected writer of FileCombiner.finished",
